@@ -24,9 +24,13 @@ def parseApp (i : Intern) (t : String) : Intern × Option AppRow :=
     let (i3, avps) := (if as = "-" then [] else as.splitOn "+").foldl (fun (acc : Intern × List AvpRow) a =>
       match a.splitOn "." with
       | [name, code, vendor, must, tyName] =>
+        -- `Type#k`: the definition has k `<item>` / `<rule>` children
+        let (tyS, items) := match tyName.splitOn "#" with
+          | [t, k] => (t, natOr k)
+          | _ => (tyName, 0)
         let (ix, n) := acc.1.get name
-        let (iy, tn) := ix.get tyName
-        (iy, acc.2 ++ [((n, natOr code, natOr vendor, decide (must = "M"), tn) : AvpRow)])
+        let (iy, tn) := ix.get tyS
+        (iy, acc.2 ++ [((n, natOr code, natOr vendor, decide (must = "M"), tn, items) : AvpRow)])
       | _ => acc) (i2, [])
     (i3, some (natOr id, typId, vendors, cmds, avps))
   | _ => (i, none)
@@ -51,7 +55,7 @@ def nameOf (names : Array String) (rev : Std.HashMap Nat String) (n : Nat) : Str
   | none => names.getD n s!"#{n}"
 
 def showAvpDef (nm : Nat → String) : Option AvpDef → String
-  | some d => s!"({d.app},{d.code},{nm d.name},{d.vendor},{d.ty})"
+  | some d => s!"({d.app},{d.code},{nm d.name},{d.vendor},{d.ty},{d.items})"
   | none => "none"
 
 /-- evaluate one query on the model parser and on the Spec log -/
